@@ -161,6 +161,21 @@ def match_known(f, case, known):
     ids = {k["id"] for k in known}
     if "C07-K1" in ids and f.get("data", {}).get("simplex") in BAD_SIMPLEX:
         return "C07-K1"
+    if "C07-K3" in ids and f["bucket"].split("/")[0] in ("mtv-too-long", "apart-after-mtv") and \
+            f.get("data", {}).get("simplex") in ("tetra+", "tetra-"):
+        A, B = ref(case["A"]), ref(case["B"])
+        if is_polytope(A) and is_polytope(B):
+            ratio = max(A.feature_size(), B.feature_size()) / max(min(A.feature_size(), B.feature_size()), 1e-300)
+            near_parallel = False
+            if "R" in case["A"] and "R" in case["B"]:
+                from ..gen.atoms import is_signed_perm
+                Rrel = np.array(case["A"]["R"]).T.dot(np.array(case["B"]["R"]))
+                near_parallel = is_signed_perm(Rrel, 1e-2) and not is_signed_perm(Rrel, 1e-12)
+            d = f.get("data", {})
+            m = float(np.linalg.norm(d.get("mtv", [0, 0, 0])))
+            gross = m - d.get("pd_hi", m) >= 1e-3 * max(d.get("pd_hi", 0.0), 1e-300)
+            if (ratio >= 20.0 or near_parallel) and gross:
+                return "C07-K3"
     if "C07-K2" in ids and f["bucket"].startswith("epa-exception/AssertionError") or \
             ("C07-K2" in ids and f["bucket"].startswith("epa-exception-swapped-winding/AssertionError")):
         def nv(sp):
